@@ -48,6 +48,25 @@ def exact_alloc_programs():
         ("nested-wrapper-capture-vec", "join! { Some(Some(1)) |> >>> |> >>> -> { let v0 = vec![1, 2, 3]; move |v: i32| v + v0.len() as i32 } <<< <<<, 2 }",
          "(Some(Some(1)).map(|w| w.map(|w2| ({ let v0 = vec![1, 2, 3]; move |v: i32| v + v0.len() as i32 })(w2))), 2)"),
     ]
+    # many branches: 33 and 40 branches, two and three steps (array helpers of the generated code must not fall back to a Vec)
+    for nb, nsteps in ((33, 2), (40, 3)):
+        for mac in ("join", "try_join"):
+            w = (lambda e: "Some(%s)" % e) if mac == "try_join" else (lambda e: e)
+            op = "|>" if mac == "try_join" else "->"
+            brs = [w("st(%d, %d)" % (b % 60, b)) + "".join(" ~%s |v: i32| v + %d" % (op, k) for k in range(1, nsteps if b % 3 else 2)) for b in range(nb)]
+            args = ", ".join("a%d: i32" % b for b in range(nb))
+            total = " + ".join("a%d" % b for b in range(nb))
+            d = "%s! { %s, %s => |%s| %s }" % (mac, ", ".join(brs), "map" if mac == "try_join" else "then", args, total)
+            vals = []
+            for b in range(nb):
+                e = "st(%d, %d)" % (b % 60, b)
+                for k in range(1, nsteps if b % 3 else 2):
+                    e = "(%s + %d)" % (e, k)
+                vals.append(e)
+            r = "{ %s }" % " + ".join(vals)
+            if mac == "try_join":
+                r = "Some(%s)" % r
+            T.append(("many-%s-%d-%d" % (mac, nb, nsteps), d, r))
     body = "let (x, n) = count_allocs(|| %s);\nformat!(\"{:?} allocations={}\", x, n)"
     for tid, d, r in T:
         progs.append(Prog("allocx/%s" % tid, body % r, body % d, [[0]], "Value", meta={"macro": d.split("!")[0], "dsl": d, "ref": r}))
